@@ -51,7 +51,17 @@ OBLIGATIONS = [
     {"id": "C10_skel_disciplined", "theorem": "Iora.C10.skeleton_disciplined", "kind": "proved",
      "statement": "every write of a wait-predicate variable is under _mutex and followed by the matching notify; waits and deque accesses hold _mutex (decide over the extracted skeleton)"},
 ]
-NOT_PROVED = []
+LEAN_MODULES = ["IoraModel.Props.C10", "IoraModel.Lemmas.RingBuffer", "IoraModel.Lemmas.RingSpsc", "IoraModel.Lemmas.BlockingQueue",
+                "IoraModel.Lemmas.BlockingQueueLogs", "IoraModel.Model.RingBuffer", "IoraModel.Model.RingSpsc", "IoraModel.Model.Monitor",
+                "IoraModel.Model.BlockingQueue", "IoraModel.Model.BqSkel", "IoraModel.Gen.Orders", "IoraModel.Gen.BqSkel"]
+NOT_PROVED = [
+    "generic theorem over skeletons (`Disciplined sk -> no lost wake-up` for EVERY monitor program instantiated from sk): proved for the blocking-queue model only; the skeleton tie is the decide-equality `skeleton_conforms` + `skeleton_disciplined`",
+    "strict linearizability of a PARTIAL tryPushBatch to an atomic `push min(count, room)` is false (counterexample in the docstring of R2_refusals_genuine); proved instead: conservative refinement (prefix accepted, FIFO, bounded) for every interleaving incl. stale counter reads",
+    "SPSC model uses natural-number counters (64-bit overflow excluded by hypothesis; sequential R1 uses UInt64 and states the hypothesis on the history)",
+    "concurrent use of size()/empty()/full()/clear()/resize() of the rings (documented as approximate resp. requiring quiescence) is not part of the SPSC model",
+    "destruction racing with callers still inside a member function (C++ lifetime rule) is outside the model; ~BlockingQueue() is close()",
+    "per-slot FastTrack epoch maps (the two-clock collapse of DESIGN 6.4 is what is proved)",
+]
 
 HARNESS = "harness/c10_queues.cpp"
 DETSCHED = os.path.join(VERIF, "harness", "detsched", "detsched.cpp")
@@ -580,14 +590,14 @@ def run(ctx: Ctx):
     if ok_build:
         ctx.audit(MODULES, OBLIGATIONS)
         if not quick:
-            ctx.leanchecker(MODULES)
+            ctx.leanchecker(LEAN_MODULES)
     else:
         ctx.cov["obligations"] = len(OBLIGATIONS)
     hb = ctx.build_harness(HARNESS, sanitize=True, flags=[DETSCHED])
     dist = collections.Counter()
     if hb:      # the model driver depends on Model/* and Gen/* only: the dynamic layers run even when a theorem no longer builds
         corpus = load_corpus()
-        seq_cases = [c for c in corpus if c.get("cat") != "bq-sched"]
+        seq_cases = [c for c in corpus if c.get("cat") != "bq-sched" and "ops" in c]
         r1 = rng.fork("ring")
         for i in range(2500 * scale):
             seq_cases.append(gen_ring_case(r1, i, wrap64=(i % 25 == 24)))
@@ -600,6 +610,7 @@ def run(ctx: Ctx):
         for i in range(2000 * scale):
             sched_cases.append(gen_sched_case(r3, i))
         run_sched(ctx, hb, sched_cases, dist)
+        run_explore(ctx, hb, quick, dist)
     run_tsan(ctx, 150 if quick else 6000, dist)
     ctx.extra["input_distribution"] = dict(dist)
     ctx.extra["repo_tree_sha"] = ctx.repo_tree_sha(ANCHOR_FILES)
@@ -613,6 +624,47 @@ def run(ctx: Ctx):
     return ctx.finish(level="proof", rule="a case = one self-contained op list on a fresh ring / blocking queue, or one multi-threaded program run under one DetSched schedule "
                       "(replayed through the Lean monitor model); distinct = distinct op lists resp. distinct (program, schedule) pairs; non-trivial = at least one "
                       "successful put and one take (sequential), resp. at least one context switch between two threads inside a call (schedules)")
+
+
+EXPLORE = [  # (maxSize, programs, exhaustive in quick?)  - every program terminates on a correct queue under every schedule
+    (4, "-/d/c", True), (1, "-/q1/d", True), (1, "-/q1,c/d", True), (1, "-/q1,q2/c", False), (1, "-/q1,q2/d,d", False),
+    (1, "-/e/t1", True), (2, "-/f1,c/y", False), (1, "-/q1/q2/d,d", False), (1, "-/d/d/q1,c", False), (2, "-/q1,q3/d/c", False),
+    (1, "-/q1/d/c", False), (1, "-/q1,q2,q3/d,d,d", False),
+]
+
+
+def run_explore(ctx, hb, quick, dist):
+    """Exhaustive (or budget-bounded, depth-first) enumeration of ALL schedules of small programs on the real class: DetSched records
+    the alternatives of every decision; the harness walks the whole tree and judges every leaf with the implementation-only monitors."""
+    lines = []
+    for cap, progs, small in EXPLORE:
+        budget = (3000 if small else 400) if quick else 20000
+        lines.append("bq explore %d %s %d" % (cap, progs, budget))
+    out, rc, err = ctx.run_lines([hb], lines, timeout=3000)
+    total = 0
+    complete = 0
+    for (cap, progs, small), l in zip(EXPLORE, out + ["crash:rc=%s" % rc] * (len(lines) - len(out))):
+        m = re.match(r"explored=(\d+) complete=([01]) deadlocks=(\d+) bad=(\d+) maxn=(\d+) outcomes=(\d+) maxlen=(\d+) first=(\S+)$", l)
+        if not m:
+            ctx.violation("property", "Q: exhaustive schedule exploration of `%s` crashed the harness: %s" % (progs, l[:200]),
+                          {"ops": ["bq explore %d %s 1000" % (cap, progs)], "observed": [l, err[-500:]]}, found_input=True)
+            break
+        n, comp, dl, bad = int(m.group(1)), int(m.group(2)), int(m.group(3)), int(m.group(4))
+        total += n
+        complete += comp
+        dist["explore:schedules"] += n
+        ctx.cov["traces_validated_against_impl"] += n
+        ctx.count_case("explore:%d:%s:%d" % (cap, progs, n), nontrivial=True)
+        ctx.cov["evaluations"] += n - 1
+        if bad:
+            why, _, ch = m.group(8).partition("@")
+            ops = ["bq sched %d %s ch:%s 8 0" % (cap, progs, ch)]
+            ctx.violation("property", "%s: %d of %d schedules of the program `%s` (maxSize %d) violate the property on the real class; first: %s"
+                          % ("Q3/Q4" if dl else "Q1/Q2", bad, n, progs, cap, why.replace("_", " ")),
+                          {"ops": ops, "program": [[] if p == "-" else p.split(",") for p in progs.split("/")[1:]], "maxSize": cap,
+                           "schedule_choices": [int(x) for x in ch.split(",")] if ch else [], "observed": [l]}, found_input=True)
+    ctx.extra["explore_schedules_enumerated"] = total
+    ctx.extra["explore_programs_exhausted"] = "%d of %d" % (complete, len(EXPLORE))
 
 
 def run_tsan(ctx, ms, dist):
